@@ -81,9 +81,10 @@ SPEC = {
     "id": "C09",
     "gens": ["FmtTables", "ParseTables", "SyntaxTables", "LexTables"],
     "lean_modules": ["RsslVerif.Thm.C09", "RsslVerif.Thm.C10", "RsslVerif.Lemmas.LiteralText"],
-    "level_note": "roundtrip_xexpr_partial / roundtrip_stmt_partial / roundtrip_decl_partial: WF / WFS / WFVarDef are decidable "
-                  "syntactic carve-outs (notes/C09.md); function definitions, structs and literal text are reached by the "
-                  "correspondence run only",
+    "level_note": "roundtrip_xexpr_partial / roundtrip_stmt_partial / roundtrip_decl_partial / roundtrip_function_partial / "
+                  "roundtrip_struct_partial: WF / WFS / WFVarDef / WFFn / WFStruct are decidable syntactic carve-outs "
+                  "(notes/C09.md); integer literal text is proved (literal_roundtrip_int), float literal text, enums, cbuffers, "
+                  "globals and template parameter lists are reached by the correspondence run only",
     "theorems": [T + n for n in [
         "binToks_lexes", "unTok_lexes", "tables_agree", "assoc_agrees", "ternary_level", "unary_tables_agree",
         "glue_prefix_prefix", "glue_postfix_next", "glue_needs_space", "paren_rule_matches_grammar",
@@ -96,6 +97,8 @@ SPEC = {
         # statements and local variable definitions (Model/FormatStmt + Model/ParseStmt)
         "roundtrip_stmt_partial", "roundtrip_block_partial", "roundtrip_decl_partial", "dangling_else_regroups",
         "attribute_comma_regroups", "for_init_pointer_reads_as_expr",
+        # function and struct definitions (Model/FormatDef + Model/ParseDef)
+        "roundtrip_param_partial", "roundtrip_function_partial", "roundtrip_struct_partial", "default_arg_comma_rejected",
         # text of integer literals through C10's lexer model
         "literal_roundtrip_int"]] + [
         # "every literal reads back with the same value and type": the reading half is property C10's; its literal
@@ -110,37 +113,42 @@ SPEC = {
     "nontrivial": nontrivial,
     "finding_key": finding_key,
     "level_text": "Proof: the formatter models (format_subexpression, format_type_id, format_declarator, format_statement, "
-                  "format_variable_definition, format_initializer, format_attribute, with the generated precedence / associativity / "
+                  "format_variable_definition, format_initializer, format_attribute, format_function, format_function_param, "
+                  "format_struct, with the generated precedence / associativity / "
                   "side / modifier / keyword tables) and the parser models (expr_p1..p15 with the generated parse_op arms, cast, "
                   "sizeof, template arguments, expression-or-type, type ids, declarators, parse_statement_kind, statement_block, "
-                  "parse_vardef, parse_initializer, attributes) are proved inverse by mutual structural induction: for every "
+                  "parse_vardef, parse_initializer, attributes, parse_function_definition, parse_function_param, "
+                  "parse_struct_definition / parse_struct_entry) are proved inverse by mutual structural induction: for every "
                   "expression tree over all node kinds except BracedInit (roundtrip_expr_partial on the first model, "
                   "roundtrip_xexpr_partial with casts / sizeof / template arguments / type ids), every statement tree of every kind "
                   "with attributes (roundtrip_stmt_partial, roundtrip_block_partial) and every local variable definition with "
-                  "pointer / reference / array declarators and aggregate initialisers (roundtrip_decl_partial), at every nesting "
-                  "depth, for every set of type names. The carve-outs (WF, WFS, WFVarDef) are decidable and syntactic; for the shapes "
+                  "pointer / reference / array declarators and aggregate initialisers (roundtrip_decl_partial), every function "
+                  "definition with attributes, in / out / inout parameters with declarators, semantics and default values, and any "
+                  "body (roundtrip_function_partial), every struct of member definitions and methods (roundtrip_struct_partial), at "
+                  "every nesting depth, for every set of type names. The carve-outs (WF, WFS, WFVarDef, WFFn, WFStruct) are decidable and syntactic; for the shapes "
                   "they exclude that really fail (operators exposed in template / sizeof arguments, a < b > (c), dangling else, comma "
-                  "in attribute arguments) the negation is proved with a witness. Table-level obligations (precedence <-> level, "
+                  "in attribute arguments and default values) the negation is proved with a witness. Table-level obligations (precedence <-> level, "
                   "associativity, spelling <-> tokens, operator glue, modifier spelling <-> keyword <-> parser arm) are decided over "
-                  "the regenerated tables, and 62 hand-modelled functions are fingerprinted. Function definitions, structs, enums "
-                  "and the text of literals are covered by the correspondence run (and C10's cited theorems) only.",
-    "rule": "requests = (context, expression tree) / statement tree built directly as rssl_ast values, or random source "
+                  "the regenerated tables, and 63 hand-modelled functions are fingerprinted. The text of non-negative integer literals of every suffix is "
+                  "proved to read back through C10's lexer model (literal_roundtrip_int); enums, cbuffers, globals, template "
+                  "parameter lists and the text of float literals are covered by the correspondence run (and C10's cited theorems) only.",
+    "rule": "requests = (context, expression tree) / statement tree / function or struct definition tree built directly as rssl_ast values, or random source "
             "modules; printed by the real rssl_formatter::format (HLSL), re-read by the real preprocess_fragment + prepare_tokens "
             "+ parse, locations stripped, ambiguous parse branches / ambiguous statements resolved with the type names of the "
             "original tree; oracle = same tree and identical second print. Streams: exhaustive depth<=3 over 3 leaves x 6 unary x "
             "12 binary operators + ternary/subscript/member/call; random depth 2-6 over all operators in 5 contexts; random with "
             "exporter-only shapes; casts / sizeof / template calls over types with all modifiers, nested template arguments and "
-            "declarators; literals of every kind over the whole value range; statement trees of random programs; random source "
+            "declarators; literals of every kind over the whole value range; statement trees and function / struct definition trees of random programs; random source "
             "modules (statements, declarators, functions with attributes / templates / semantics / defaults, structs with "
             "methods and base types, enums, cbuffers, namespaces, resource globals). non-trivial = at least two operator nodes",
     "trusted_base": [
         "Lean 4.33 kernel; axioms propext / Classical.choice / Quot.sound only (audited by #print axioms)",
         "tools/gens/c09.py (FmtTables, ParseTables as before; SyntaxTables: TypeModifier variants and Debug spellings, lexer "
         "keyword table, parse_type_modifiers_before/after arms, cast / sizeof / call arms and alternative orders (shape "
-        "checks), sha256 fingerprints of 62 hand-modelled functions) - re-run on /repo's working tree every time",
+        "checks), sha256 fingerprints of 63 hand-modelled functions) - re-run on /repo's working tree every time",
         "hand-written Model/Format.lean, Model/Parse.lean (first model), Model/FormatFull.lean, Model/ParseFull.lean (casts, "
         "sizeof, template arguments, types, declarators), Model/FormatStmt.lean, Model/ParseStmt.lean (statements, local "
-        "definitions) - tied to the code by the fingerprints and the correspondence run",
+        "definitions), Model/FormatDef.lean, Model/ParseDef.lean (functions, parameters, structs) - tied to the code by the fingerprints and the correspondence run",
         "Rust f32/f64 Display (shortest round trip) and the lexer's literal reading (C10, whose literal theorems are cited)",
     ],
     "assumptions": [
@@ -151,6 +159,7 @@ SPEC = {
         "type names: the model is run with the set W of names that are types; the real parser returns all readings and the "
         "type checker picks with W (the harness resolves the same way)",
         "white space of statements is compared collapsed; BracedInit, attributes on declarators, location annotations of "
-        "locals and StaticSampler are answered `unsupported` by the model and judged by the oracle only",
+        "locals, StaticSampler, template parameter lists, const / volatile methods, register / packoffset annotations and "
+        "struct base types are answered `unsupported` by the model and judged by the oracle only",
     ],
 }
